@@ -1,5 +1,7 @@
 package core
 
+import "os"
+
 // Profiles: generator settings per property and tier. Quick profiles aim at
 // many short, diverse runs; thorough profiles add long histories (deep trees,
 // many tables), full crash-site sweeps and nested crashes.
@@ -138,10 +140,13 @@ func ProfileFor(prop, tier string, seed uint64) *Profile {
 			pf.ContStmts = [2]int{4, 10}
 			pf.TickModes = []string{"sparse", "late", "none"}
 		}
-		if thorough {
+		if thorough && !pf.BigInsertOnly {
 			pf.WalStmts = 6
 			pf.Stmts = [2]int{10, 70}
 			pf.MaxRows = 10
+		}
+		if (thorough && seed%16 == 9) || longLogForced {
+			longLog(pf, seed/16)
 		}
 	case "C04":
 		pf.FlushImgs = 8
@@ -304,6 +309,9 @@ func ProfileFor(prop, tier string, seed uint64) *Profile {
 		pf.Values = "mixed"
 		pf.Stmts = [2]int{15, 60}
 	}
+	if (thorough || giantForced) && (prop == "C01" || prop == "C11" || prop == "C16") && (seed%16 == 9 || giantForced) {
+		giant(pf, seed/16)
+	}
 	return pf
 }
 
@@ -316,3 +324,60 @@ func c13MultiDB(pf *Profile) {
 	pf.TickModes = []string{"random", "each", "sparse", "late"}
 	pf.OpenFailP = 0.4
 }
+
+// giant: one table grown by wide INSERTs until it has more leaves than the
+// default cache has room for pages (10 000), then a tail of updates, deletes,
+// selects and restarts that favours the newest rows. Thorough tier only, a
+// sixteenth of the jobs: the one place where the amount of data is real.
+func giant(pf *Profile, r uint64) {
+	pf.GiantRows = 43000 + int(r%5)*1500
+	pf.MaxRows = 64
+	pf.WideInserts = true
+	pf.BigInsertOnly = true
+	pf.Tables = [2]int{1, 1}
+	n := pf.GiantRows/pf.MaxRows + 40
+	pf.Stmts = [2]int{n, n + 40}
+	pf.WInsert, pf.WUpdate, pf.WDelete, pf.WSelect, pf.WRestart, pf.WCreate, pf.WFail, pf.WRaw = 10, 40, 15, 10, 4, 0, 3, 0
+	pf.CheckEvery = 250
+	pf.TreeEvery = 0
+	if pf.Prop == "C11" {
+		pf.TreeEvery = 350 // a walk over 10 000 leaves in the middle, one at the end
+	}
+	pf.StallP = 0.002
+	pf.FatP = 0
+	pf.Values = "plain"
+	pf.CacheCaps = []int{0}
+	pf.Boundary, pf.WalStmts, pf.FlushImgs = 0, 0, 0
+}
+
+// giantForced: SIM_GIANT=1 makes every plan of C01 / C11 / C16 a giant one (for
+// measurements and for trying a seeded change that needs the scale).
+var giantForced = os.Getenv("SIM_GIANT") != ""
+
+// longLog: a log of more than 65 536 records (a few MB; mkdb never resets its
+// log): one table of ~2200 rows, then whole-table UPDATEs of ~2200 records
+// each until the log is long enough, then the usual statements with log cuts,
+// recoveries and second deaths. Thorough tier, a sixteenth of the C03 jobs.
+func longLog(pf *Profile, r uint64) {
+	pf.GiantRows = 2100 + int(r%4)*100
+	pf.LongLog = 66500 + int(r%7)*1500
+	pf.MaxRows = 64
+	pf.WideInserts = true
+	pf.BigInsertOnly = true
+	pf.Tables = [2]int{1, 1}
+	n := pf.GiantRows/pf.MaxRows + pf.LongLog/pf.GiantRows + 25
+	pf.Stmts = [2]int{n, n + 20}
+	pf.WInsert, pf.WUpdate, pf.WDelete, pf.WSelect, pf.WRestart, pf.WCreate, pf.WFail, pf.WRaw = 30, 30, 15, 3, 2, 0, 6, 0
+	pf.CheckEvery = 20
+	pf.StallP = 0.002
+	pf.FatP = 0
+	pf.Values = "plain"
+	pf.CacheCaps = []int{0}
+	pf.WalStmts = 3
+	pf.LastStmtsOnly = 22
+	pf.NestP = 0.6
+	pf.ContStmts = [2]int{3, 8}
+	pf.TickModes = []string{"sparse", "late", "none"}
+}
+
+var longLogForced = os.Getenv("SIM_LONGLOG") != ""
